@@ -512,9 +512,13 @@ def run_check(ctx, args):
     nontrivial = 0
     for rnd in range(rounds):
         progs = corpus_programs(0) if rnd == 0 else []
+        # two programs per round carry the large-value group (values of 4 KB … 64 KB copied through pointers, into interfaces,
+        # by value, under closures): one straddling 4 KB, one from the larger sizes.  LLVM 14 needs minutes for them at -O2,
+        # so the quick tier builds them at -O0 only (the copy semantics are decided in cl/ssa, before the optimiser).
+        big_plan = {len(progs): [ctx.rng.choice([500, 520, 520])], len(progs) + 1: [ctx.rng.choice([1024, 2000, 5000, 8190, 8200])]}
         while len(progs) < per_batch:
             seed = ctx.rng.getrandbits(48)
-            P = gen2.generate(seed, len(progs))
+            P = gen2.generate(seed, len(progs), big_plan.get(len(progs)))
             P.seed = seed
             progs.append(P)
         tag = "r%d" % rnd
@@ -554,10 +558,15 @@ def run_check(ctx, args):
         for npk in layouts:
             for opt in ("-O0", "-O2"):
                 t0 = time.time()
-                skip = bench.crash_seeds.get(opt, set())
+                skip = set(bench.crash_seeds.get(opt, set()))
+                if opt == "-O2" and (quick or rnd > 0 or npk != layouts[0]):      # thorough: once, in the first round and layout
+                    for P in live:
+                        if getattr(P, "big", False):
+                            skip.add(P.seed)
+                            stats["large_value_programs_O0_only"] = stats.get("large_value_programs_O0_only", 0) + 1
                 todo = [P for P in live if P.seed not in skip]
                 for P in live:
-                    if P.seed in skip:
+                    if P.seed in skip and not getattr(P, "big", False):
                         bench.toolchain_crashes.append((P, npk, opt, "skipped: its group crashed LLVMRunPasses in another layout at this level"))
                 parts = bench.llgo_parts(todo, npk, opt, "%s-l%d" % (tag, npk))
                 for binary, sub in parts:
@@ -607,7 +616,7 @@ def run_check(ctx, args):
            "skipped_reference_timeout": stats["skipped_reference_timeout"], "skipped_model_out_of_fuel": stats["skipped_model_out_of_fuel"],
            "llgo_builds": bench.n_llgo_builds,
            "toolchain_crashes": [{"seed": P.seed, "packages": npk, "opt": opt, "log": log[:200]} for (P, npk, opt, log) in bench.toolchain_crashes],
-           "build_failures": len(bench.build_failures)}
+           "build_failures": len(bench.build_failures), "large_value_programs_O0_only": stats.get("large_value_programs_O0_only", 0)}
     cov.update(covb)
     return ctx.finish("translation_validation", cov)
 
